@@ -219,6 +219,12 @@ impl Repository {
             .context(error::TransportSnafu { url })?;
         file.write_all(&root_file_data)
             .await
+            .with_context(|_| error::CacheFileWriteSnafu {
+                path: outpath.clone(),
+            })?;
+        // The write happens in the background; `flush` waits for it and reports its outcome.
+        file.flush()
+            .await
             .context(error::CacheFileWriteSnafu { path: outpath })
     }
 
